@@ -104,14 +104,34 @@ func (n *ParallelNode) Run(ctx context.Context) error {
 	defer func() {
 		close(workerJobs)
 		close(coordinatorJobs)
-		workerWg.Wait()
-		coordinatorWg.Wait()
+		// Keep draining errs while waiting for the workers and the coordinator.
+		// The coordinator reports an error for every message that fails after
+		// the first one and nobody else empties the channel anymore, so with
+		// more failed messages in flight than errs can buffer the coordinator
+		// (and with it the workers and this function) would block forever.
+		stopped := make(chan struct{})
+		go func() {
+			workerWg.Wait()
+			coordinatorWg.Wait()
+			close(stopped)
+		}()
+		collect := func(workerErr error) {
+			err = cerrors.LogOrReplace(err, workerErr, func() {
+				n.logger.Warn(ctx).Err(workerErr).Msg("parallel worker node failed")
+			})
+		}
+		for running := true; running; {
+			select {
+			case workerErr := <-errs:
+				collect(workerErr)
+			case <-stopped:
+				running = false
+			}
+		}
 		for {
 			select {
 			case workerErr := <-errs:
-				err = cerrors.LogOrReplace(err, workerErr, func() {
-					n.logger.Warn(ctx).Err(workerErr).Msg("parallel worker node failed")
-				})
+				collect(workerErr)
 			default:
 				return
 			}
@@ -143,6 +163,16 @@ func (n *ParallelNode) Run(ctx context.Context) error {
 				return err
 			}
 			return noWorkerRunningErr
+		case workerErr := <-errs:
+			// All workers are busy and the coordinator reported a failure. We
+			// have to take it here: while we wait for a free worker nobody
+			// calls trigger, so errs would fill up, the coordinator would block
+			// on it and no worker would ever become free again. The node stops
+			// on any error, nack the message we could not dispatch and return.
+			if nackErr := msg.Nack(workerErr, n.ID()); nackErr != nil {
+				n.logger.Warn(ctx).Err(nackErr).Msg("could not nack message after a parallel worker failed")
+			}
+			return workerErr
 		}
 	}
 }
